@@ -2,7 +2,7 @@
 
 spec/Links.tla     P-layer (ResMatch, OrderOK, AtomsOK, NonEdgeOK, PatternOK, PFold, PInts, ...), I-layer (BeginLink, TryMatch, EndLink,
                    WriteBack, FindMissing), dangling .itp interactions as links (ItpLinksOf, Windows)
-spec/MC_Links.tla  link catalogue, residue graphs, case families A-E, export, small instances, sensitivity instances
+spec/MC_Links.tla  link catalogue, residue graphs, case families A-F, R, W, export, small instances, sensitivity instances
 spec/LinksTrace.tla  validation of records taken from the real code
 S->I : TLC enumerates every case of the families (all connected residue graphs on <= 4 residues x residue names x link catalogue,
        features, edge labels, residue labels, dangling .itp interactions on chains of 1..5) and prints input + expected molecule +
@@ -20,7 +20,7 @@ from .. import common as c
 from .. import links_util as lu
 
 PROP = "C02"
-FAMS = ["A", "B", "C", "D", "E", "F", "R"]
+FAMS = ["A", "B", "C", "D", "E", "F", "R", "W"]
 DEVS = [("Mono", "FinalIsExpected", "monomorphism instead of induced residue match (m04)"),
         ("NoOrder", "FinalIsExpected", "relative order check dropped (m05)"),
         ("NoLinktype", "FinalIsExpected", "edge labels ignored (m06)"),
@@ -34,7 +34,9 @@ DEVS = [("Mono", "FinalIsExpected", "monomorphism instead of induced residue mat
         ("DangEnd", "Export", "dangling interaction expected beyond the chain end"),
         ("NoAtomResname", "FinalIsExpected", "independent seed C02-2: residue name not compared at the atom level"),
         ("LastOfName", "FinalIsExpected", "independent seed4-C02-1: name -> atom table keeps only the last atom of a repeated name"),
-        ("RepBeforePattern", "FinalIsExpected", "independent seed2-C02-1: replace and removal carried out before the pattern veto")]
+        ("RepBeforePattern", "FinalIsExpected", "independent seed2-C02-1: replace and removal carried out before the pattern veto"),
+        ("NonEdgeNoWide", "FinalIsExpected", "independent seed6-C02-2: the partner atom of a [ non-edges ] entry is described without the link-wide attribute lines"),
+        ("NonEdgeNoResname", "FinalIsExpected", "residue name of the partner atom of a [ non-edges ] entry not compared")]
 # finding F17 (removed-node-key-equals-version) is REPAIRED: behaviour that equals the DevVerKey deviation is a VIOLATION again; the match is
 # only mentioned in the report text so that a returning defect is recognised at once
 F17_NOTE = " [observed interactions equal Links.tla with deviation DevVerKey: repaired finding F17 is back]"
@@ -118,13 +120,14 @@ def prepare_family(ck, fam, res, tier, rng):
         raise c.MachineryError("family %s: TLC exported no case" % fam)
     ck.extra.setdefault("exported_cases", {})[fam] = len(raws)
     if tier == "quick":
-        per = {"A": 4, "B": 8, "C": 30, "D": 50, "E": 40, "F": 25, "R": 1000}[fam]
+        per = {"A": 4, "B": 8, "C": 30, "D": 50, "E": 40, "F": 25, "R": 1000, "W": 1000}[fam]
         pick = _stratified(raws, per, rng)
     else:
         pick = list(range(len(raws)))
     items = [(i, _decode(raws[i])) for i in pick]
     nparts = c.NPROC * 3 if fam == "A" else max(2, c.NPROC // 2)
-    parts = [(fam, ch, ffs, "%s_%d" % (fam, k), tier == "thorough" and fam != "A") for k, ch in enumerate(c.chunks(items, nparts))]
+    # family W is replayed in two layouts in both tiers: residue names in braces on every atom / link-wide lines
+    parts = [(fam, ch, ffs, "%s_%d" % (fam, k), (tier == "thorough" and fam != "A") or fam == "W") for k, ch in enumerate(c.chunks(items, nparts))]
     return items, ffs, parts
 
 
@@ -259,10 +262,11 @@ def gen_params_subsets(ck, kept, plan, rng):
 
 # ------------------------------------------------------------------ I -> S
 
-def record_one(inp, paths=None, wd=None, tag="r"):
-    """run the real code on an abstract input (blocks and links inside inp) and return the record LinksTrace validates"""
+def record_one(inp, paths=None, wd=None, tag="r", layout=0):
+    """run the real code on an abstract input (blocks and links inside inp) and return the record LinksTrace validates.
+    layout 1: a residue name shared by the atoms (and non-edge partners) of a link is written as a link-wide line"""
     if paths is None:
-        paths = lu.write_ff(wd, inp["blocks"], inp["links"], "mixed" if lu.repeated_names(inp["blocks"]) else "ff", 0, tag=tag)
+        paths = lu.write_ff(wd, inp["blocks"], inp["links"], "mixed" if lu.repeated_names(inp["blocks"]) else "ff", layout, tag=tag)
     obs = lu.run_processors(inp, inp["blocks"], inp["links"], paths)
     if "exception" in obs:
         o = {"exception": obs["exception"], "ints": [], "edges": [], "removed": [], "calls": [], "attr": [], "missing": []}
@@ -270,7 +274,7 @@ def record_one(inp, paths=None, wd=None, tag="r"):
         o = {"exception": "", "ints": obs["ints"], "edges": obs["edges"], "removed": obs["removed"], "calls": obs["calls"], "missing": obs["missing"],
              "missing0": obs["missing0"],
              "attr": [{"at": [int(x) for x in k.split(",")], "attrs": {kk: vv for kk, vv in v.items() if kk != "resid"}} for k, v in sorted(obs["attr"].items())]}
-    return {"input": inp, "obs": o}
+    return {"input": inp, "obs": o, "layout": layout}
 
 
 def _record_chunk(arg):
@@ -280,7 +284,7 @@ def _record_chunk(arg):
     out = []
     for sd in seeds:
         inp = lu.random_case(random.Random(sd), repeat_names=True)
-        out.append(record_one(inp, wd=wd))
+        out.append(record_one(inp, wd=wd, layout=sd % 2))
     return out
 
 
@@ -381,7 +385,7 @@ def _library_chunk(arg):
 def tlc_jobs(tier):
     jobs = []
     for fam in FAMS:
-        jobs.append(("export_" + fam, "MC_Links", "Lk_export_%s.cfg" % fam, {"A": 8, "B": 3, "C": 1, "D": 1, "E": 2, "F": 2, "R": 1}[fam], {}))
+        jobs.append(("export_" + fam, "MC_Links", "Lk_export_%s.cfg" % fam, {"A": 8, "B": 3, "C": 1, "D": 1, "E": 2, "F": 2, "R": 1, "W": 1}[fam], {}))
     if tier == "quick":
         jobs.append(("model", "MC_Links", "Lk_tiny.cfg", 4, {}))
     else:
@@ -390,6 +394,7 @@ def tlc_jobs(tier):
     jobs.append(("modelE", "MC_Links", "Lk_small_E.cfg", 2, {}))
     jobs.append(("modelF", "MC_Links", "Lk_small_F.cfg", 2, {}))
     jobs.append(("modelR", "MC_Links", "Lk_small_R.cfg", 2, {}))
+    jobs.append(("modelW", "MC_Links", "Lk_small_W.cfg", 2, {}))
     jobs.append(("devfams", "MC_Links", "Lk_devfams.cfg", 1, {"coverage": True}))
     for name, inv, what in DEVS:
         jobs.append(("dev_" + name, "MC_Links", "Lk_dev_%s.cfg" % name, 1, {"check": False}))
@@ -404,7 +409,10 @@ def run(tier):
                "and all-A graphs on 4), C (edge labels), D (residue labels), E (20 monomer .itp files with dangling interactions on chains of 1-5 "
                "and mixed chains), F (links that name the residue on a subset of the atoms of an order, residues A and C with identical atom names, "
                "node keys any permutation of the residue ids), R (blocks D, E that repeat an atom name - two s of different / of equal type - with links "
-               "selecting s by name only, by name and type, by a choice of names, and dangling .itp interactions on them); a case is non-trivial if at least one link applies or an atom is removed. I->S: seeded random cases with 5-7 "
+               "selecting s by name only, by name and type, by a choice of names, and dangling .itp interactions on them), W (10 force fields whose links carry "
+               "link-wide attribute lines - resname, resname + atype - and [ non-edges ] whose partner atom is completed by them or overrides them, and the same "
+               "conditions with the name written on every atom, over residues A and C with identical atom names: all connected graphs on 1-3 residues and chains "
+               "of 4 x names {A,C}^n, every case replayed in two layouts); a case is non-trivial if at least one link applies or an atom is removed. I->S: seeded random cases with 5-7 "
                "residues, 3 block types, 3 links and force fields of the repository; distinct = record with at least one applied link")
     ck.assumptions = ["domain: every link names a residue on at least one atom; no two definitions of one (atoms, version) at the same definition index; "
                       "no link whose own edges/replacements change the outcome of its own vetoes (TLC checks these on every exported case and "
@@ -422,6 +430,7 @@ def run(tier):
         ck.model_must_hold(results["model4"], "FinalIsExpected on four residues")
     ck.model_must_hold(results["modelE"], "FinalIsExpected on dangling .itp links")
     ck.model_must_hold(results["modelR"], "FinalIsExpected on blocks that repeat an atom name")
+    ck.model_must_hold(results["modelW"], "FinalIsExpected on links with link-wide attribute lines and [ non-edges ] over residues that share atom names")
     ck.model_must_hold(results["modelF"], "FinalIsExpected on links naming the residue on a subset of their atoms, permuted residue ids")
     ck.model_must_hold(results["devfams"], "sensitivity families without deviation / OrderSymmetric")
     cov = results["devfams"].coverage()
@@ -448,7 +457,7 @@ def run(tier):
         report_family(ck, fam, kept[fam][0], kept[fam][1], out[lo:hi])
     del out, allparts
     ck.stage("gen_params entry point")
-    gen_params_subsets(ck, kept, (("B", 60), ("C", 20), ("D", 20), ("E", 40), ("F", 40)) if tier == "quick" else (("A", 1500), ("B", 1000), ("C", 252), ("D", 144), ("E", 680), ("F", 600)), rng)
+    gen_params_subsets(ck, kept, (("B", 60), ("C", 20), ("D", 20), ("E", 40), ("F", 40), ("W", 40)) if tier == "quick" else (("A", 1500), ("B", 1000), ("C", 252), ("D", 144), ("E", 680), ("F", 600), ("W", 540)), rng)
     kept.clear()
     # 3. I->S
     ck.stage("I->S: random cases")
@@ -495,7 +504,7 @@ def replay(path):
         print("\n".join(bad[0][1]) if bad else "matches the expectation now")
         return 1 if bad else 0
     rec = case["record"]
-    new = record_one(rec["input"], wd=c.workdir(PROP, "replay_rec")) if "blocks" in rec["input"] and not case.get("stage") == "library" else rec
+    new = record_one(rec["input"], wd=c.workdir(PROP, "replay_rec"), layout=rec.get("layout", 0)) if "blocks" in rec["input"] and not case.get("stage") == "library" else rec
     rejected, skipped = validate_records(ck, [new], "replay_rec_tlc", expect_reject=True)
     print("record re-run: %s" % ("still rejected (%s)" % rejected[0] if rejected else "accepted now"))
     return 1 if rejected else 0
